@@ -997,9 +997,18 @@ def to_float(I, st, v):
         yield st, Fraction(v)
     elif isinstance(v, str):
         try:
-            yield st, to_frac(float(v))
+            f = float(v)
         except ValueError as e:
             yield st, exc("ValueError", str(e))
+            return
+        if f != f:
+            raise Unsupported("float('nan')")
+        if f in (math.inf, -math.inf):
+            from .values import Inf
+
+            yield st, Inf(1 if f > 0 else -1)
+            return
+        yield st, to_frac(f)
     elif is_z3(v) and z3.is_int(v):
         yield st, z3.ToReal(v)
     elif is_z3(v):
@@ -1117,6 +1126,8 @@ def make_builtins(I):
                     yield st, (min(items) if which == "min" else max(items))
                     return
                 raise Unsupported("min/max over symbolic tuples")
+            if any(isinstance(x, _m().Inf) for x in items):
+                raise Unsupported("min/max with float('inf')")
             if not all(is_number(x) for x in items):
                 if all(isinstance(x, str) for x in items):
                     yield st, (min(items) if which == "min" else max(items))
